@@ -296,8 +296,8 @@ impl<C: Config> World<C> {
                 let meta_ok = t.len() == v.len() && t.capacity() == v.capacity() && t.is_empty() == v.is_empty() && v.is_empty() == (v.len() == 0)
                     && tu.as_ptr() == t.as_ptr() && v.element_typeid() == TypeId::of::<C::E>() && v.element_layout() == std::alloc::Layout::new::<C::E>()
                     && v.element_drop().is_some() == std::mem::needs_drop::<C::E>();
-                vw = e1 == e2 && e1 == e3 && bytes.len() == v.len() * C::E::SZ && e4_ok && meta_ok;
-                if !vw { self.notes.push(format!("views:{}:{:?}|{:?}|{:?}", VNAMES[i], e1, e2, e3)); }
+                let vw0 = e1 == e2 && e1 == e3 && bytes.len() == v.len() * C::E::SZ && e4_ok && meta_ok;
+                if !vw0 { self.notes.push(format!("views:{}:{:?}|{:?}|{:?}", VNAMES[i], e1, e2, e3)); }
                 el = e1.iter().map(|d| json!([d.0, d.1])).collect::<Vec<_>>();
                 let base = t.as_ptr() as usize;
                 al = base % C::E::AL == 0 && (bytes.as_ptr() as usize == base || v.len() == 0 || C::E::SZ == 0);
@@ -305,6 +305,19 @@ impl<C: Config> World<C> {
                 self.vs[i].last_base = base;
                 let (l, b, a) = fence::lookup(base);
                 blk = (l as i64, clampi(b), a as i64);
+                // the MUTABLE views cover exactly the same elements (only when nothing borrows the vector)
+                let n = v.len();
+                let bytes_at = bytes.as_ptr() as usize;
+                let mut mut_ok = true;
+                if !self.busy(i) {
+                    let vm: &mut V<C> = unsafe { &mut *self.vs[i].ptr };
+                    { let bm = vm.as_bytes_mut(); mut_ok &= bm.len() == n * C::E::SZ && bm.as_ptr() as usize == bytes_at; }
+                    { let mut tm = vm.downcast_mut::<C::E>().expect("driver: element type"); let sm = tm.as_mut_slice(); mut_ok &= sm.len() == n && sm.as_ptr() as usize == base; }
+                    { mut_ok &= vm.iter_mut().len() == n; }
+                    { let mut tm = vm.downcast_mut::<C::E>().expect("driver: element type"); mut_ok &= tm.iter_mut().len() == n; }
+                    if !mut_ok { self.notes.push(format!("mutviews:{}", VNAMES[i])); }
+                }
+                vw = vw0 && mut_ok;
             } else {
                 len = -1; cap = -1; el = vec![]; al = true; mv = false; vw = true;
             }
